@@ -340,6 +340,27 @@ Qed.
 Definition stop_time (x : outcome time) : cresult time :=
   match x with Ok t' => COk t' | Err _ => CErr CEImpossibleTime | Crash _ => CCrash end.
 
+(* Stop with an explicit date selection: only the record of that date is looked at, and the day before is not
+   computed at all - so the first day of the calendar is an ordinary target (fix F13: `klog stop --date 0000-01-01`
+   used to panic in Date.PlusDays(-1)) *)
+Lemma stop_explicit_date now cfg a summary file d t rs bs :
+  at_date now (a_date a) = Ok d -> at_time now cfg a = COk t -> was_automatic a = false ->
+  parse_text file = Ok (Parsed rs bs) ->
+  exec_simple now cfg (Stop a summary) file =
+    match reconciler_at_record (dt d) rs bs with
+    | Some r => finish (lift_r (close_open_range r t (time_format cfg a) (match summary with Some s => s | None => [] end)))
+    | None => CErr CENoSuchRecord
+    end.
+Proof.
+  intros Hd Ht Ha Hp.
+  unfold exec_simple. rewrite Hd. cbn [of_outcome cbind]. rewrite Ht. cbn [cbind]. cbv zeta. rewrite Ha. cbn [cbind].
+  rewrite (reconcile_file_one file rs bs _ _ Hp).
+  unfold first_creator, at_record.
+  destruct (reconciler_at_record (dt d) rs bs) as [r|] eqn:E1.
+  - cbn [flat_map app cbind andb]. reflexivity.
+  - reflexivity.
+Qed.
+
 (* Stop, spelled out: the record of the target date when there is one; otherwise, and only when neither a date
    nor a time was selected, yesterday's record with the end time shifted by 24 hours *)
 Lemma stop_unfold now cfg a summary file d t y rs bs :
@@ -363,19 +384,26 @@ Proof.
   intros Hd Ht Hy Hvd Hp fmt add.
   destruct (plus_days_neighbour _ _ _ Hvd Hy) as [Hwy Hdy].
   assert (Hne : dt d <> y) by (apply days_neq; lia).
-  unfold exec_simple. rewrite Hd. cbn [of_outcome cbind]. rewrite Ht. cbn [cbind]. cbv zeta. rewrite Hy. cbn [of_outcome cbind].
-  rewrite (reconcile_file_one file rs bs _ _ Hp).
-  unfold first_creator, at_record.
-  destruct (reconciler_at_record (dt d) rs bs) as [r|] eqn:E1.
-  - cbn [flat_map app cbind].
-    rewrite (reconciler_at_record_date _ _ _ _ E1), (cdate_eqb_neq _ _ Hne), andb_false_r.
-    cbn [cbind]. reflexivity.
-  - destruct (was_automatic a).
+  unfold exec_simple. rewrite Hd. cbn [of_outcome cbind]. rewrite Ht. cbn [cbind]. cbv zeta.
+  destruct (was_automatic a) eqn:Ea.
+  - rewrite Hy. cbn [of_outcome cbind].
+    rewrite (reconcile_file_one file rs bs _ _ Hp).
+    unfold first_creator, at_record.
+    destruct (reconciler_at_record (dt d) rs bs) as [r|] eqn:E1.
+    + cbn [flat_map app cbind].
+      rewrite (reconciler_at_record_date _ _ _ _ E1), (cdate_eqb_neq _ _ Hne), andb_false_r.
+      cbn [cbind]. reflexivity.
     + destruct (reconciler_at_record y rs bs) as [r|] eqn:E2.
       * cbn [flat_map app cbind].
         rewrite (reconciler_at_record_date _ _ _ _ E2), cdate_eqb_refl. cbn [andb].
         unfold stop_time. destruct (time_plus t 1440); reflexivity.
       * reflexivity.
+  - (* an explicit date: the day before is not even computed (fix F13) *)
+    cbn [cbind].
+    rewrite (reconcile_file_one file rs bs _ _ Hp).
+    unfold first_creator, at_record.
+    destruct (reconciler_at_record (dt d) rs bs) as [r|] eqn:E1.
+    + cbn [flat_map app cbind andb]. reflexivity.
     + reflexivity.
 Qed.
 
